@@ -248,7 +248,7 @@ def rec_star(seed):
     rec['peaks'] = pk if pk else [[0, 0]]
     # isolated true sources (no other source within 9 px): a row that belongs to one (within 3 px) is centred on it (within 1.2 px; the
     # centre of mass of a window trimmed by the frame edge is biased by a fraction of a pixel only); every centroid lies on the frame
-    iso_src = [p for p in pos if all(q is p or (q[0] - p[0]) ** 2 + (q[1] - p[1]) ** 2 > 81 for q in pos) and not (p[1] >= 28 and p[0] < 14) and not (3 <= p[1] <= 10 and 18 <= p[0] <= 25)]
+    iso_src = [p for p in pos if all(q is p or (q[0] - p[0]) ** 2 + (q[1] - p[1]) ** 2 > 81 for q in pos) and not (p[1] >= 28 and p[0] < 14) and not (p[1] <= 14 and 13 <= p[0] <= 30)]      # (not next to the planted sharp box at x 20..22, y 5..7, which is detected as a source of its own)
     rec['w'], rec['h'] = fk(data.shape[1] - 0.5), fk(data.shape[0] - 0.5)
     rec['truth'] = [[fk(a), fk(b)] for a, b in iso_src] if (not use_xy and seed % 5 != 0) else []
     out.append(rec)
